@@ -100,15 +100,27 @@ def run(rec, cfg):
                     flip.exclude_padding = arg
                 elif op == "fn+":
                     flip.functions[arg] = AbsExpression
+                    flip._vmon_funcs = {"sgn": "Sgn", arg: "Abs"}
                 else:
                     flip.functions.pop(arg, None)
+                    flip._vmon_funcs = {"sgn": "Sgn"}
                 rec.arm("tok:settings-changed-between-calls")
                 for t in (s, s.replace("sgn", "abs") if "sgn" in s else "abs(" + s[:12] + ")"):
                     try:
                         flip.tokenize(t)
                     except Exception:
                         pass
+            # while the name is still registered on `flip`, every OTHER instance (the two long-lived
+            # ones and a brand-new one) must go on reading the run as single-letter variables
+            if "abs" in flip.functions:
+                rec.arm("tok:other-instances-while-a-name-is-registered-elsewhere")
+                for other in (toks[True], toks[False], Tokenizer()):
+                    try:
+                        other.tokenize("abs(" + s[:12] + ")")
+                    except Exception:
+                        pass
             flip.functions.pop("abs", None)
+            flip._vmon_funcs = {"sgn": "Sgn"}
         # relational law, directly on what the implementation returned
         if isinstance(outs[True], list) and isinstance(outs[False], list):
             rec.ev()
